@@ -818,3 +818,129 @@ func TestGocvReplay(t *testing.T) {
 	}
 }
 `
+
+// ---------------------------------------------------------------------------
+// driver: (*subProcess).run — a cancel message while the inner flow is running (C10, the twin of the generic task's
+// refusal): an interrupting boundary event on a running sub-process; the inner task is answered only after the
+// exception flow has reached its end event, and the normal flow continues all the same.
+
+func init() {
+	registerReplay(replayDriver{
+		modelFree: true,
+		name:      "bpmn sub-process with an interrupting boundary event",
+		match: func(ob *Oblig) bool {
+			return strings.HasPrefix(ob.Func, "bpmn.(*subProcess).run") && strings.Contains(ob.Name, "interrupt-cancels-a-running-sub-process")
+		},
+		build: func(ob *Oblig, m map[string]string) (string, string, bool) {
+			return ".", "// generated by gocv for obligation " + ob.Name + "\n" + subprocessInterruptTest, true
+		},
+	})
+}
+
+const subprocessInterruptTest = `package bpmn
+
+import (
+	"context"
+	"encoding/xml"
+	"testing"
+	"time"
+
+	"github.com/olive-io/bpmn/schema"
+	"github.com/olive-io/bpmn/v2/pkg/event"
+	"github.com/olive-io/bpmn/v2/pkg/tracing"
+)
+
+const spCancelXML = ` + "`" + `<?xml version="1.0" encoding="UTF-8"?>
+<bpmn:definitions xmlns:bpmn="http://www.omg.org/spec/BPMN/20100524/MODEL" id="D" targetNamespace="http://bpmn.io/schema/bpmn">
+  <bpmn:process id="P" isExecutable="true">
+    <bpmn:startEvent id="s"><bpmn:outgoing>f0</bpmn:outgoing></bpmn:startEvent>
+    <bpmn:subProcess id="sub"><bpmn:incoming>f0</bpmn:incoming><bpmn:outgoing>f1</bpmn:outgoing>
+      <bpmn:startEvent id="is"><bpmn:outgoing>g0</bpmn:outgoing></bpmn:startEvent>
+      <bpmn:task id="inner"><bpmn:incoming>g0</bpmn:incoming><bpmn:outgoing>g1</bpmn:outgoing></bpmn:task>
+      <bpmn:endEvent id="ie"><bpmn:incoming>g1</bpmn:incoming></bpmn:endEvent>
+      <bpmn:sequenceFlow id="g0" sourceRef="is" targetRef="inner" />
+      <bpmn:sequenceFlow id="g1" sourceRef="inner" targetRef="ie" />
+    </bpmn:subProcess>
+    <bpmn:endEvent id="e"><bpmn:incoming>f1</bpmn:incoming></bpmn:endEvent>
+    <bpmn:boundaryEvent id="b" cancelActivity="true" attachedToRef="sub">
+      <bpmn:outgoing>f2</bpmn:outgoing>
+      <bpmn:signalEventDefinition id="sd" signalRef="sig1" />
+    </bpmn:boundaryEvent>
+    <bpmn:endEvent id="e2"><bpmn:incoming>f2</bpmn:incoming></bpmn:endEvent>
+    <bpmn:sequenceFlow id="f0" sourceRef="s" targetRef="sub" />
+    <bpmn:sequenceFlow id="f1" sourceRef="sub" targetRef="e" />
+    <bpmn:sequenceFlow id="f2" sourceRef="b" targetRef="e2" />
+  </bpmn:process>
+  <bpmn:signal id="sig1" name="sig1" />
+</bpmn:definitions>` + "`" + `
+
+func TestGocvReplay(t *testing.T) {
+	var defs schema.Definitions
+	if err := xml.Unmarshal([]byte(spCancelXML), &defs); err != nil {
+		t.Fatal(err)
+	}
+	proc, err := NewEngine().NewProcess(&defs)
+	if err != nil {
+		t.Fatal(err)
+	}
+	ctx, cancel := context.WithTimeout(context.Background(), 5*time.Second)
+	defer cancel()
+	traces := proc.Tracer().SubscribeChannel(make(chan tracing.ITrace, 128))
+	if err := proc.StartAll(ctx); err != nil {
+		t.Fatal(err)
+	}
+	var pending TaskTrace
+	listening := false
+	visited := map[string]int{}
+	fired := false
+	deadline := time.After(3 * time.Second)
+	for {
+		select {
+		case tr := <-traces:
+			switch tt := tracing.Unwrap(tr).(type) {
+			case TaskTrace:
+				id, _ := tt.GetActivity().Element().Id()
+				t.Logf("task %s", *id)
+				if *id == "inner" {
+					pending = tt
+				}
+			case ActiveListeningTrace:
+				if id, ok := tt.Node.Id(); ok && *id == "b" {
+					listening = true
+				}
+			case VisitTrace:
+				if id, ok := tt.Node.Id(); ok {
+					visited[*id]++
+					t.Logf("visit %s", *id)
+					if *id == "e2" && pending != nil {
+						// the interrupting path is through: now the inner task is answered
+						time.Sleep(50 * time.Millisecond)
+						pending.Do()
+					}
+				}
+			case CancellationFlowNodeTrace:
+				id, _ := tt.Node.Id()
+				t.Logf("cancellation %s", *id)
+			case ErrorTrace:
+				t.Logf("error %v", tt.Error)
+			}
+			if pending != nil && listening && !fired {
+				fired = true
+				time.Sleep(50 * time.Millisecond)
+				if _, err := proc.ConsumeEvent(event.NewSignalEvent("sig1")); err != nil {
+					t.Fatal(err)
+				}
+			}
+		case <-deadline:
+			t.Logf("visited=%v", visited)
+			if visited["e2"] != 1 {
+				t.Fatalf("the interrupting boundary event's flow did not reach e2")
+			}
+			if visited["e"] != 0 {
+				t.Fatalf("an interrupting boundary event on a running sub-process did not stop its normal flow: e visited %d times", visited["e"])
+			}
+			return
+		}
+	}
+}
+`
